@@ -95,14 +95,13 @@ impl From<ctap2::StatusCode> for WebauthnError {
     }
 }
 
-/// Returns a decoded [String] if the domain name is punycode otherwise
-/// the original string reference [str] is returned.
-fn decode_host(host: &str) -> Option<Cow<str>> {
-    if host.split('.').any(|s| s.starts_with("xn--")) {
-        let (decoded, result) = idna::domain_to_unicode(host);
-        result.ok().map(|_| Cow::from(decoded))
-    } else {
+/// Returns the ASCII (punycode) form of the domain name, which is the form the
+/// [`public_suffix::EffectiveTLDProvider`] works on. An already ASCII name is returned as is.
+fn encode_host(host: &str) -> Option<Cow<str>> {
+    if host.is_ascii() {
         Some(Cow::from(host))
+    } else {
+        idna::domain_to_ascii(host).ok().map(Cow::from)
     }
 }
 
@@ -591,7 +590,7 @@ where
         }
 
         // assert rp_id is not part of the public suffix list and is a registerable domain.
-        if decode_host(rp_id)
+        if encode_host(rp_id)
             .as_ref()
             .and_then(|s| self.tld_provider.effective_tld_plus_one(s).ok())
             .is_none()
@@ -636,7 +635,7 @@ where
             effective_rp_id = rp_id;
         }
 
-        if decode_host(effective_rp_id)
+        if encode_host(effective_rp_id)
             .as_ref()
             .and_then(|s| self.tld_provider.effective_tld_plus_one(s).ok())
             .is_none()
